@@ -54,6 +54,7 @@ type review struct {
 
 type scluster struct {
 	name  string
+	host  string
 	info  *clusters.ClusterInfo
 	ready bool // false = the whole cluster has no ready endpoint (whatever the endpoints' own flags say)
 	rr    int
@@ -120,10 +121,13 @@ func sarKey(s *authorizationv1.SubjectAccessReviewSpec) string {
 	return k
 }
 
-func newSCluster(name string, salt uint64, log *reviewLog, gates *gateSet) *scluster {
-	c := &scluster{name: name, ready: true, salt: salt, log: log, gates: gates}
+// name is the identity that the cluster's answers carry (provenance); host is the cluster object's name, i.e. the host
+// name it is reachable under. They differ only for a cluster that was deleted and created again under the same object
+// name: a new incarnation (new ClusterInfo, new servers, new answers) behind the old host name.
+func newSCluster(name, host string, salt uint64, log *reviewLog, gates *gateSet) *scluster {
+	c := &scluster{name: name, host: host, ready: true, salt: salt, log: log, gates: gates}
 	// a ClusterInfo of its own: Context() is what the production code ties its cache lifetime to
-	c.info = clusters.NewEmptyClusterInfo(name, nil, nil, "", nil)
+	c.info = clusters.NewEmptyClusterInfo(host, nil, nil, "", nil)
 	return c
 }
 
@@ -156,6 +160,9 @@ func newEndpoint(name string, p *provider, owner *scluster, log *reviewLog, gate
 		name := c.name
 		log.add(review{Cluster: name, Kind: "token", Key: tr.Spec.Token, Endpoint: e.name, EpReady: epReady})
 		gates.hold("token", tr.Spec.Token, name)
+		if err := gates.fault("token", tr.Spec.Token, name); err != nil {
+			return true, nil, err
+		}
 		switch c.answer("token", tr.Spec.Token) {
 		case ansYes:
 			tr.Status = authenticationv1.TokenReviewStatus{Authenticated: true, User: authenticationv1.UserInfo{
@@ -278,29 +285,31 @@ type op struct {
 }
 
 type scenario struct {
-	r        *vkit.R
-	idx      int
-	g        *vkit.Rand
-	p        *provider
-	log      *reviewLog
-	cls      []*scluster
-	gone     map[string]bool
-	authn    authenticator.Token
-	authz    authorizer.Authorizer
-	ttlN     [2]time.Duration
-	ttlZ     [2]time.Duration
-	ops      []op
-	everOwn  map[string]map[string]bool // host -> clusters that ever owned it
-	hostPool []string
-	panicked bool
-	gates    *gateSet
-	sigCtx   string // appended to violation signatures while the overlap phase is judged
-	caseN    int
-	features map[string]bool
+	r           *vkit.R
+	idx         int
+	g           *vkit.Rand
+	p           *provider
+	log         *reviewLog
+	cls         []*scluster
+	gone        map[string]bool
+	authn       authenticator.Token
+	authz       authorizer.Authorizer
+	ttlN        [2]time.Duration
+	ttlZ        [2]time.Duration
+	ops         []op
+	everOwn     map[string]map[string]bool // host -> clusters that ever owned it
+	hostPool    []string
+	panicked    bool
+	gates       *gateSet
+	deleted     []*scluster
+	incarnation int
+	sigCtx      string // appended to violation signatures while the overlap phase is judged
+	caseN       int
+	features    map[string]bool
 }
 
 var (
-	tokens    = []string{"tok-a", "tok-b", "tok-c", "tok-d"}
+	tokens    = []string{"tok-a", "tok-b", "tok-c", "tok-d", "tok/with:odd%chars+=~", "tok-long-" + strings.Repeat("x", 4096)}
 	sarUsers  = []string{"alice", "bob"}
 	aliasPool = []string{"x.io", "y.io", "z.io", "w.io"}
 	ttls      = [][2]time.Duration{{0, 0}, {10 * time.Second, 10 * time.Second}, {50 * time.Millisecond, 50 * time.Millisecond}, {10 * time.Second, 0}, {0, 10 * time.Second}, {time.Hour, time.Hour}}
@@ -317,14 +326,19 @@ var attrSpecs = []attrSpec{
 	{"impersonate users/admin", authorizer.AttributesRecord{Verb: "impersonate", Resource: "users", Name: "admin", APIVersion: "v1", ResourceRequest: true}},
 	{"impersonate groups/system:masters", authorizer.AttributesRecord{Verb: "impersonate", Resource: "groups", Name: "system:masters", APIVersion: "v1", ResourceRequest: true}},
 	{"get /metrics", authorizer.AttributesRecord{Verb: "get", Path: "/metrics", ResourceRequest: false}},
+	// boundary values: names with ':' '/' '%' and upper case; attributes too long to be cached (shouldCache == false)
+	{"impersonate users/<service account name with : / % and upper case>", authorizer.AttributesRecord{Verb: "impersonate", Resource: "users", Name: "system:serviceaccount:Kube-System:sa/with%2Fodd:chars", APIVersion: "v1", ResourceRequest: true}},
+	{"get pods/<10 001 character name, not cacheable>", authorizer.AttributesRecord{Verb: "get", Resource: "pods", Namespace: "ns1", Name: strings.Repeat("n", 10001), APIVersion: "v1", ResourceRequest: true}},
 }
+
+const uncacheableAttr = 6
 
 func newScenario(r *vkit.R, idx int, g *vkit.Rand) *scenario {
 	s := &scenario{r: r, idx: idx, g: g, log: &reviewLog{}, gates: newGateSet(), gone: map[string]bool{}, everOwn: map[string]map[string]bool{}, features: map[string]bool{}}
 	s.p = &provider{hosts: map[string]*scluster{}}
 	k := g.Range(2, 4)
 	for i := 0; i < k; i++ {
-		c := newSCluster(fmt.Sprintf("cl%d", i), g.Uint64(), s.log, s.gates)
+		c := newSCluster(fmt.Sprintf("cl%d", i), fmt.Sprintf("cl%d", i), g.Uint64(), s.log, s.gates)
 		for j, ne := 0, g.Range(2, 3); j < ne; j++ {
 			s.p.eps = append(s.p.eps, newEndpoint(fmt.Sprintf("%s-server%d", c.name, j), s.p, c, s.log, s.gates))
 		}
@@ -545,6 +559,12 @@ func (s *scenario) doAuthz(host, userName string, ai int) {
 	if strings.HasPrefix(a.name, "impersonate") {
 		s.r.Count("authz_impersonation_requests", 1)
 	}
+	if ai == uncacheableAttr {
+		s.r.Count("authz_requests_with_uncacheable_attributes", 1)
+	}
+	if ai == uncacheableAttr-1 {
+		s.r.Count("authz_requests_with_odd_characters", 1)
+	}
 	// the generic authorization filter serves a request whenever the decision is Allow, even with an error
 	s.judge("authz", &s.ops[len(s.ops)-1], owner, dec == authorizer.DecisionAllow, prov, provFromErr, s.log.since(m))
 	if owner != nil && prov == owner.name && err == nil {
@@ -594,8 +614,39 @@ func (s *scenario) run(nops int) {
 		roll := g.Intn(100)
 		if s.idx%6 == 0 && i == nops/2 {
 			// one retried review per selected scenario (each costs the production 500 ms back-off)
-			s.retryCase()
+			s.retryCase(false)
 			continue
+		}
+		if s.idx%6 == 3 && i == nops/2 {
+			s.retryCase(true)
+			continue
+		}
+		if len(s.deleted) > 0 && g.Chance(0.06) {
+			// a deleted cluster is created again under the same object name: a new incarnation behind the old host name
+			old := s.deleted[g.Intn(len(s.deleted))]
+			if s.p.owner(old.host) == nil {
+				s.incarnation++
+				nc := newSCluster(fmt.Sprintf("%sr%d", old.host, s.incarnation), old.host, g.Uint64(), s.log, s.gates)
+				for j := 0; j < 2; j++ {
+					s.p.mu.Lock()
+					s.p.eps = append(s.p.eps, newEndpoint(fmt.Sprintf("%s-server%d", nc.name, j), s.p, nc, s.log, s.gates))
+					s.p.mu.Unlock()
+				}
+				s.cls = append(s.cls, nc)
+				s.setOwner(old.host, nc)
+				s.features["recreate-same-name"] = true
+				s.r.Count("clusters_recreated_under_same_name", 1)
+				s.ops = append(s.ops, op{Kind: "recreate", Host: old.host, Cluster: nc.name, Owner: old.name})
+				// everything that was asked on this host name before is asked again, plus the standard credentials
+				s.probeHost(old.host, rec)
+				for _, t := range tokens[:4] {
+					s.doAuthn(old.host, t)
+				}
+				for ai := range attrSpecs[:5] {
+					s.doAuthz(old.host, sarUsers[0], ai)
+				}
+				continue
+			}
 		}
 		if g.Chance(0.07) {
 			s.endpointOp()
@@ -676,7 +727,7 @@ func (s *scenario) run(nops int) {
 			}
 		default: // a cluster is deleted: its hosts stop resolving, its context is cancelled
 			live := s.liveClusters()
-			if len(live) < 3 || i < nops/3 {
+			if len(live) < 2 || i < nops/4 {
 				continue
 			}
 			c := live[g.Intn(len(live))]
@@ -689,6 +740,7 @@ func (s *scenario) run(nops int) {
 			s.p.mu.Unlock()
 			c.info.Stop()
 			s.gone[c.name] = true
+			s.deleted = append(s.deleted, c)
 			s.features["cluster-delete"] = true
 			s.r.Count("cluster_deletes", 1)
 			s.ops = append(s.ops, op{Kind: "delete", Cluster: c.name})
@@ -769,7 +821,7 @@ func TestCheck(t *testing.T) {
 			"same SAR => allow/deny/no-opinion/outage per cluster). Seeded random sequences of 60 operations: AuthenticateToken / Authorize (incl. impersonate users/groups) for 4 tokens, " +
 			"2 users x 5 attribute tuples on 7-9 hosts (cluster names, aliases, an unknown host), with re-use of recent credentials on other hosts; an alias moves to another live cluster " +
 			"(followed by a replay of the recent credentials on it); every cluster has 2-3 upstream servers (one fake clientset each, ClientFor picks a ready one round-robin like PickOne): a server becomes unready / ready, " +
-			"is removed, or is given to another cluster and then answers with that cluster's table (followed by fresh credentials on the hosts of the clusters involved); a cluster loses / regains all its ready endpoints; an alias is dropped; a cluster is deleted; " +
+			"is removed, or is given to another cluster and then answers with that cluster's table (followed by fresh credentials on the hosts of the clusters involved); a cluster loses / regains all its ready endpoints; an alias is dropped; a cluster is deleted, and created again under the same name as a new incarnation (new ClusterInfo, servers and answers) followed by everything asked on that name before; " +
 			"concurrent phase (about 5 per scenario): one fresh token, or one fresh user x attribute tuple, is sent to 2-4 hosts of pairwise different clusters at the same time - the stub review of the " +
 			"first request is held at a barrier inside the reactor until the other requests have been issued (and have reached their own cluster's barrier or returned), so the overlap is " +
 			"constructed, not hoped for; the credentials are then replayed sequentially on the same hosts; retry phase (one per 6th scenario): the first SubjectAccessReview of a fresh user x attribute tuple " +
@@ -778,7 +830,7 @@ func TestCheck(t *testing.T) {
 			"{0, 50ms, 10s, 1h} incl. asymmetric ones. Oracle: provenance monitor (see package comment) + every review caused by a request is received by the cluster owning the host. " +
 			"Production wiring (8 worlds in quick, 60 in thorough): real controller = Manager = ClientProvider, authenticator/authorizer from the production config constructors, real handler chain, HTTP stub upstreams serving " +
 			"TokenReview/SAR and recording the impersonated identity of forwarded requests; sequential and 4-client concurrent phases, alias moves, requests whose TLS connection state carries a server name " +
-			"different from the Host header (another cluster's name / alias, unknown, empty), and after every alias move an outage of the new owner (its endpoint fails the health probes) with fresh credentials, then recovery. " +
+			"different from the Host header (another cluster's name / alias, unknown, empty), an alias move made while a request for that alias is inside the handler chain (just before its token is authenticated / its impersonation is authorized; one-shot hook at the authenticator's position, no timing), and after every alias move an outage of the new owner (its endpoint fails the health probes) with fresh credentials, then recovery. " +
 			"Non-trivial = the scenario contains at least two hosts of different clusters asked with the same credentials; distinct = hash of the operation list.")
 		r.Assume("a cached answer that the host's own cluster gave earlier may be applied while that cluster has no ready endpoint (the statement only forbids deciding from another cluster's answer)")
 		r.Assume("Hostname in ExtraRequestInfo is lower-case without port, as the production ExtraRequestInfoFactory produces it")
@@ -814,6 +866,9 @@ func TestCheck(t *testing.T) {
 		r.Require(r.Counter("authn_refused_no_ready_endpoint")+r.Counter("authz_refused_no_ready_endpoint") > int64(ns/2), "too few requests to clusters without a ready endpoint")
 		r.Require(r.Counter("overlap_pairs_authn") >= int64(ns/2) && r.Counter("overlap_pairs_authz") >= int64(ns/2) && r.Counter("overlap_pairs_authz_impersonation") >= int64(ns/10),
 			"too few request pairs with the same credentials overlapped (review of the first in flight while the second was issued)")
+		r.Require(r.Counter("clusters_recreated_under_same_name") >= int64(ns/10), "too few clusters deleted and created again under the same name")
+		r.Require(r.Counter("authz_requests_with_uncacheable_attributes") >= int64(ns) && r.Counter("authz_requests_with_odd_characters") >= int64(ns), "too few requests with boundary attribute values")
+		r.Require(r.Counter("retry_cases_authn") >= int64(ns/12), "too few token reviews were retried after a retriable failure with the host moved in between")
 		r.Require(r.Counter("retry_cases") >= int64(ns/12) && r.Counter("retry_cases_impersonation") >= int64(ns/60),
 			"too few reviews were retried after a retriable failure with the host moved to another cluster in between")
 		r.Require(r.Counter("endpoint_changes") >= int64(ns*2), "too few endpoint changes (unready / removed / moved to another cluster)")
